@@ -125,14 +125,15 @@ PROPS = {
                         "names are injected at lookup level, not through multicast"],
     },
     "C15": {
-        "proof_files": ["Proofs/LockFacts.v", "Properties/C15_instance.v"],
+        "proof_files": ["Proofs/LockFacts.v", "Proofs/LastModFacts.v", "Properties/C15_instance.v"],
         "race_build": True,
         "trusted_extra": ["translator harness/locks_extract.go (Go AST -> Gen/AccessTable.v) and its configuration of shared types / guarded fields",
                           "Go race detector (ThreadSanitizer runtime) for the stress half"],
         "generated": {"cmd": ["locks-extract"], "out": "Gen/AccessTable.v",
                       "compile": ["Gen/AccessTable.v", "Properties/C15_instance.v"], "diag": "Gen/C15Diag.v",
                       "theorem": "C15_table_ok"},
-        "runs": [{"engine": "racestress", "args": [], "n_quick": 8, "n_thorough": 240, "netns": True}],
+        "runs": [{"engine": "racestress", "args": [], "n_quick": 8, "n_thorough": 240, "netns": True},
+                 {"engine": "resolver", "args": ["-mode", "lmconc"], "n_quick": 2500, "n_thorough": 120000, "netns": True}],
         "trivial_tags": [],
         "rule": "translator: every method of the shared types (hosts / lease / router client tables, mDNS tables, DoH last-modified map, "
                 "endpoint manager and active endpoint) in /repo's current source is turned into its control-flow paths of lock operations "
